@@ -4,8 +4,10 @@
     header); proofs: Proofs/CreateFsProofs.v.
     All theorems quantify over every configuration [c] (flags, arguments, every failure cause
     at its position) and every filesystem [fs]; no bounds.
-    Open finding, class name-with-separator: the two path-rule theorems carry [plain nm = true]
-    (no `/` in the torrent name) and the witnesses at the end show the rule fails otherwise. *)
+    Repaired finding (was open as name-with-separator): `torrent create` now refuses a torrent
+    name that is not exactly one normal path component ([name_ok]; CreateContent::check_name),
+    so the path-rule theorems hold without a side condition on the name: success implies the name
+    was plain and the file is at the documented path; [c09_bad_name_rejected] is the refusal. *)
 From Coq Require Import NArith List Bool.
 From Imdl Require Import Model.CreateFs Model.CreateOrder Proofs.CreateFsProofs Generated.GenCreateOrder.
 Import ListNotations.
@@ -105,23 +107,60 @@ Theorem c09_rule_explicit : forall c fs nm o t,
   from_create c fs = inr (nm, Some o) -> c_output c = Some (OPath t) -> o = parse_path t.
 Proof. exact rule_explicit. Qed.
 
+(** the name check: whatever from_create lets through (given with --name or taken from the
+    input's file name) is exactly one normal path component ... *)
+Theorem c09_accepted_name_ok : forall c fs nm o, from_create c fs = inr (nm, o) -> name_ok nm = true.
+Proof. exact accepted_name_ok. Qed.
+
+(** ... and a `--name` that is not (empty, `.`, `..`, or containing a separator) makes the
+    command fail before anything is hashed or opened, the filesystem exactly as it was - for
+    every configuration (any --output, any input, --force or not) and every filesystem *)
+Check bad_name_rejected : forall c fs nm, c_name c = Some nm -> name_ok nm = false ->
+  fst (create_fx c fs) = fs /\
+  exists e, snd (create_fx c fs) = CFail e /\ before_hashing e = true.
+Theorem c09_bad_name_rejected : forall c fs nm, c_name c = Some nm -> name_ok nm = false ->
+  fst (create_fx c fs) = fs /\
+  exists e, snd (create_fx c fs) = CFail e /\ before_hashing e = true.
+Proof. exact bad_name_rejected. Qed.
+(** the two witnesses of the former finding (`--output d --name /x`, `--name ../x`) are refused *)
+Example c09_bad_name_abs_inhabited :
+  name_ok nm_abs = false /\
+  create_fx (mk (Some (OPath b_d)) (Some nm_abs) false false) ex_fs = (ex_fs, CFail ENameInvalid).
+Proof. exact ex_bad_name_abs. Qed.
+Example c09_bad_name_up_inhabited :
+  name_ok nm_up = false /\
+  create_fx (mk None (Some nm_up) false false) ex_fs = (ex_fs, CFail ENameInvalid).
+Proof. exact ex_bad_name_up. Qed.
+Example c09_bad_name_kinds :
+  forallb (fun nm => negb (name_ok nm))
+          [ []; [46]; [46; 46]; [97; 47; 98]; nm_abs; nm_up; [120; 47] ] = true /\
+  forallb name_ok [ [120]; [46; 46; 46]; [46; 120]; [120; 46]; [92] ] = true.
+Proof. exact ex_bad_name_kinds. Qed.
+
+(** success => the name was plain and the target is next to the input *)
 Check rule_default : forall c fs nm o itext,
-  from_create c fs = inr (nm, Some o) -> c_output c = None -> c_input c = Some itext -> plain nm = true ->
+  from_create c fs = inr (nm, Some o) -> c_output c = None -> c_input c = Some itext ->
+  name_ok nm = true /\
   env_resolve (c_cwd c) (parse_path itext) <> [] /\
   env_resolve (c_cwd c) o = removelast (env_resolve (c_cwd c) (parse_path itext)) ++ [name_torrent nm].
 Theorem c09_rule_default : forall c fs nm o itext,
-  from_create c fs = inr (nm, Some o) -> c_output c = None -> c_input c = Some itext -> plain nm = true ->
+  from_create c fs = inr (nm, Some o) -> c_output c = None -> c_input c = Some itext ->
+  name_ok nm = true /\
   env_resolve (c_cwd c) (parse_path itext) <> [] /\
   env_resolve (c_cwd c) o = removelast (env_resolve (c_cwd c) (parse_path itext)) ++ [name_torrent nm].
 Proof. exact rule_default. Qed.
 
+(** success => the name was plain and a target that is a directory receives exactly
+    `<name>.torrent` as one more component *)
 Check rule_directory : forall c fs nm o,
-  from_create c fs = inr (nm, Some o) -> plain nm = true ->
+  from_create c fs = inr (nm, Some o) ->
+  name_ok nm = true /\
   out_path c fs = Some (if path_is_dir fs (env_resolve (c_cwd c) o)
                         then env_resolve (c_cwd c) o ++ [name_torrent nm]
                         else env_resolve (c_cwd c) o).
 Theorem c09_rule_directory : forall c fs nm o,
-  from_create c fs = inr (nm, Some o) -> plain nm = true ->
+  from_create c fs = inr (nm, Some o) ->
+  name_ok nm = true /\
   out_path c fs = Some (if path_is_dir fs (env_resolve (c_cwd c) o)
                         then env_resolve (c_cwd c) o ++ [name_torrent nm]
                         else env_resolve (c_cwd c) o).
@@ -131,31 +170,59 @@ Example c09_rule_directory_inhabited :
   /\ snd (create_fx (mk (Some (OPath b_d)) None false false) ex_fs) = CSuccess.
 Proof. exact ex_directory_target. Qed.
 
-(** OPEN FINDING name-with-separator: with a `/` in --name the rule is false (witnesses) *)
-Theorem c09_name_separator_escapes_directory :
-  exists c fs nm o q,
-    from_create c fs = inr (nm, Some o) /\ plain nm = false /\
-    path_is_dir fs (env_resolve (c_cwd c) o) = true /\
-    snd (create_fx c fs) = CSuccess /\ c_dry_run c = false /\
-    fst (create_fx c fs) = update fs q (NFile (c_torrent c)) /\
-    ~ is_under (env_resolve (c_cwd c) o) q.
-Proof. exact name_separator_escapes_directory. Qed.
-Theorem c09_name_separator_escapes_default :
-  exists c fs nm o itext q,
-    from_create c fs = inr (nm, Some o) /\ c_output c = None /\ c_input c = Some itext /\ plain nm = false /\
-    snd (create_fx c fs) = CSuccess /\ c_dry_run c = false /\
-    fst (create_fx c fs) = update fs q (NFile (c_torrent c)) /\
-    removelast q <> removelast (env_resolve (c_cwd c) (parse_path itext)).
-Proof. exact name_separator_escapes_default. Qed.
+(** the name is an opaque component of that path: `.torrent` is appended to the whole name,
+    whatever dots it holds, so two different names never designate the same file *)
+Theorem c09_distinct_names_distinct_files : forall (d : list (list N)) a b,
+  d ++ [name_torrent a] = d ++ [name_torrent b] -> a = b.
+Proof. exact distinct_names_distinct_files. Qed.
+Example c09_dotted_names_inhabited :
+  name_ok nm_tar = true /\
+  create_fx (mk (Some (OPath b_d)) (Some nm_tar) false false) ex_fs
+  = (update ex_fs [b_w; b_d; nm_tar ++ dot_torrent] (NFile [100; 101]), CSuccess) /\
+  create_fx (mk (Some (OPath b_d)) (Some nm_zip) false false)
+            (update ex_fs [b_w; b_d; nm_tar ++ dot_torrent] (NFile [100; 101]))
+  = (update (update ex_fs [b_w; b_d; nm_tar ++ dot_torrent] (NFile [100; 101]))
+            [b_w; b_d; nm_zip ++ dot_torrent] (NFile [100; 101]), CSuccess).
+Proof. exact ex_dotted_names. Qed.
+
+(** the same, from the outcome alone: every successful run passed the name check and its output
+    path is the documented one *)
+Check success_at_documented_path : forall c fs,
+  snd (create_fx c fs) = CSuccess ->
+  exists nm o, from_create c fs = inr (nm, o) /\ name_ok nm = true /\
+    match o with
+    | None => out_path c fs = None
+    | Some t => out_path c fs = Some (if path_is_dir fs (env_resolve (c_cwd c) t)
+                                      then env_resolve (c_cwd c) t ++ [name_torrent nm]
+                                      else env_resolve (c_cwd c) t)
+    end.
+Theorem c09_success_at_documented_path : forall c fs,
+  snd (create_fx c fs) = CSuccess ->
+  exists nm o, from_create c fs = inr (nm, o) /\ name_ok nm = true /\
+    match o with
+    | None => out_path c fs = None
+    | Some t => out_path c fs = Some (if path_is_dir fs (env_resolve (c_cwd c) t)
+                                      then env_resolve (c_cwd c) t ++ [name_torrent nm]
+                                      else env_resolve (c_cwd c) t)
+    end.
+Proof. exact success_at_documented_path. Qed.
+Example c09_plain_name_success_inhabited :
+  create_fx (mk (Some (OPath b_d)) (Some [120]) false false) ex_fs
+  = (update ex_fs [b_w; b_d; name_torrent [120]] (NFile [100; 101]), CSuccess).
+Proof. exact ex_plain_name_success. Qed.
 
 (** (T) Create::run and CreateContent::from_create of the current tree perform their checks and
-    their single write in the order the model follows; the open/write lies inside the dry-run
-    guard, the post steps after it; torrent_path is the modelled expression; there is exactly one
-    filesystem-mutating call site in create.rs + create_content.rs *)
+    their single write in the order the model follows (the name check in both branches of
+    from_create, after the name is determined and before the output target is); the open/write
+    lies inside the dry-run guard, the post steps after it; torrent_path is the modelled
+    expression; check_name / FilePath::is_normal_component read as the test [name_ok] mirrors;
+    there is exactly one filesystem-mutating call site in create.rs + create_content.rs *)
 Theorem c09_source_order :
   GenCreateOrder.translated = true /\
   GenCreateOrder.run_order = model_run_order /\
   GenCreateOrder.content_order = model_content_order /\
+  GenCreateOrder.stdin_order = model_stdin_order /\
+  GenCreateOrder.name_check_is_model = true /\
   GenCreateOrder.write_inside_dry_guard = true /\
   GenCreateOrder.post_steps_after_guard = true /\
   GenCreateOrder.torrent_path_is_model = true /\
@@ -180,6 +247,13 @@ Print Assumptions c09_rule_explicit.
 Print Assumptions c09_rule_default.
 Print Assumptions c09_rule_directory.
 Print Assumptions c09_rule_directory_inhabited.
-Print Assumptions c09_name_separator_escapes_directory.
-Print Assumptions c09_name_separator_escapes_default.
+Print Assumptions c09_accepted_name_ok.
+Print Assumptions c09_bad_name_rejected.
+Print Assumptions c09_bad_name_abs_inhabited.
+Print Assumptions c09_bad_name_up_inhabited.
+Print Assumptions c09_bad_name_kinds.
+Print Assumptions c09_distinct_names_distinct_files.
+Print Assumptions c09_dotted_names_inhabited.
+Print Assumptions c09_success_at_documented_path.
+Print Assumptions c09_plain_name_success_inhabited.
 Print Assumptions c09_source_order.
